@@ -13,7 +13,7 @@
 #include "simtsan.h"
 #include <malloc.h>
 #define THR_YIELD() simthr_yield(1)
-#define THR_ALLOC(p, n) simthr_on_alloc((p), (n))
+#define THR_ALLOC(p, n) simthr_on_alloc((p), (p) ? malloc_usable_size(p) : (size_t)(n)) /* the whole usable block: free() later covers it all */
 #else
 #define THR_YIELD() ((void)0)
 #define THR_ALLOC(p, n) ((void)0)
